@@ -12,17 +12,25 @@ import json
 import threading
 import collections
 
+import time
+import tempfile
+
 from mc import core, impl
 from mc.ref import xsd as R
+# imported here, in the pristine parent (importing defines functions and uses nothing): a thread that is pre-empted while it
+# holds the import lock of a module the other thread needs would deadlock the two-thread harness, which is not the
+# library's doing
+from musicxml.parser.parser import parse_musicxml  # noqa: E402
 
 SCENARIOS = {
     'quick': [('note', 'note'), ('words', 'rehearsal'), ('duration', 'duration'), ('type', 'swing-type'),
               ('measure', 'part'), ('credit-words', 'words'), ('lyric', 'text'), ('pitch', 'rest'),
               ('direction', 'sound'), ('ending', 'measure-numbering'), ('articulations', 'articulations'),
-              ('dynamics', 'technical')],
+              ('dynamics', 'technical'), ('@parse-decimal', '@parse-integral')],
 }
 
 
+CHILD_TIMEOUT = 120
 OCC = 2   # quick: pre-empt at the first OCC executions of every distinct library line (thorough: every line event)
 
 
@@ -96,7 +104,26 @@ def _outcome(fn):
         return ['exc', type(e).__name__, str(e)[:200]]
 
 
+def body_parse(rec):
+    """a thread that builds its tree with parse_musicxml from its own file, then serialises it"""
+    def f():
+        fd, path = tempfile.mkstemp(suffix='.xml', dir=os.environ.get('VERIF_RUN_DIR'))
+        try:
+            with os.fdopen(fd, 'wb') as fh:
+                fh.write(rec['parse'].encode('utf-8'))
+            return parse_musicxml(path).to_string()
+        finally:
+            os.unlink(path)
+    return _outcome(f)
+
+
 def body(rec):
+    if 'parse' in rec:
+        return body_parse(rec)
+    return _body(rec)
+
+
+def _body(rec):
     """what one thread does with its own objects: build + validate + serialise a complete tree; then the two error
     paths a user meets - serialising an element that lacks its required attributes, and a mistyped attribute"""
     first = _outcome(lambda: build_from(rec).to_string())
@@ -136,8 +163,23 @@ def in_child(fn, *args):
         finally:
             os._exit(0)
     os.close(w)
+    # a schedule that deadlocks the two threads must not hang the check: the child gets CHILD_TIMEOUT seconds
+    import select
+    import signal
+    chunks = []
+    deadline = time.time() + CHILD_TIMEOUT
     with os.fdopen(r, 'rb') as fh:
-        data = fh.read()
+        while True:
+            left = deadline - time.time()
+            if left <= 0 or not select.select([fh], [], [], left)[0]:
+                os.kill(pid, signal.SIGKILL)
+                os.waitpid(pid, 0)
+                return {'child_error': 'timeout: no result after %d s (deadlock between the two threads?)' % CHILD_TIMEOUT}
+            b = os.read(fh.fileno(), 1 << 16)
+            if not b:
+                break
+            chunks.append(b)
+    data = b''.join(chunks)
     os.waitpid(pid, 0)
     return json.loads(data.decode('utf-8')) if data else {'child_error': 'no data'}
 
@@ -232,9 +274,15 @@ def run(tier):
     scen = all_scenarios(tier)
     names = sorted({n for s in scen for n in s})
     # recipes in a throw-away child: the parent stays pristine (it has imported the library and used nothing)
-    recs = in_child(lambda: {n: recipe(n) for n in names})
+    recs = in_child(lambda: {n: recipe(n) for n in names if not n.startswith('@')})
     if 'child_error' in recs:
         raise core.InternalError('recipe child failed: ' + recs['child_error'])
+    # parser threads: the same small score with every decimal-typed number spelled fractional / integral
+    from mc.checks import C13
+    pv = in_child(lambda: {'@parse-decimal': C13.spelling_variant(C13.PARSER_DOC, 'decimal'),
+                           '@parse-integral': C13.spelling_variant(C13.PARSER_DOC, 'integral')})
+    for k, v in pv.items():
+        recs[k] = {'parse': v}
     tasks = []
     per = {}
     for (x, y) in scen:
@@ -248,7 +296,7 @@ def run(tier):
             N = cnt['lines']
             per[sid] = {'lines': N, 'soloA': sa[0], 'soloB': sb[0]}
             # thorough: every line event for the hand-picked scenarios, first-occurrence points for the per-type ones
-            full = tier == 'thorough' and ((x, y) in SCENARIOS['quick'])
+            full = tier == 'thorough' and ((x, y) in SCENARIOS['quick']) and not x.startswith('@')
             idx = list(range(1, N + 1)) if full else cnt['first']
             per[sid]['schedules'] = len(idx)
             step = 100
